@@ -159,8 +159,13 @@ type caseSpec struct {
 	// (j+ProbeRot)%3 (0 aggregate with parameter sets, 1 single NAL unit, 2 three
 	// fragments), so that the first probe packet can be a start fragment (2), a
 	// single NAL unit (1) or an aggregate (0).
-	ProbeRot  int `json:"probe_rotation,omitempty"`
-	HLSWaitMs int `json:"hls_wait_ms,omitempty"` // 0 = the default bound
+	ProbeRot int `json:"probe_rotation,omitempty"`
+	// FU, when set, says how the hostile packets are generated (a never-ending
+	// fragmentation unit): replay files then carry this recipe instead of megabytes of hex.
+	FU *fuRecipe `json:"hostile_fragmentation_unit,omitempty"`
+	// BoundScale multiplies the wait bound (cases that push tens of megabytes through the converters).
+	BoundScale int `json:"bound_scale,omitempty"`
+	HLSWaitMs  int `json:"hls_wait_ms,omitempty"` // 0 = the default bound
 	// SettleMs lets the converter goroutines work off the hostile packets before
 	// the next packet is published (at most this long; ends early once a converter
 	// has logged a recovered panic). It only varies the schedule, it is no oracle.
@@ -170,6 +175,34 @@ type caseSpec struct {
 // sigHLSJump: listed finding — the HLS segmenter cannot follow a jump of the
 // presentation timeline (see TestWitnessHlsTimelineJump).
 const sigHLSJump = "hls-stalls-after-presentation-time-jump"
+
+type fuRecipe struct {
+	Middles  int    `json:"middle_fragments"`
+	FragSize int    `json:"fragment_payload_bytes"`
+	Seq      uint16 `json:"first_sequence_number"`
+	TS       uint32 `json:"timestamp"`
+	Key      bool   `json:"key_picture"`
+	Ended    bool   `json:"ended_by_an_end_fragment"`
+}
+
+// materialize rebuilds the hostile packets from the recipe (replay files).
+func (c *caseSpec) materialize() {
+	if c.FU != nil && len(c.Hostile) == 0 {
+		for _, raw := range neverEndingFU(c.codec(), c.FU.Middles, c.FU.FragSize, c.FU.Seq, c.FU.TS, c.FU.Key, c.FU.Ended) {
+			c.Hostile = append(c.Hostile, mkPkt(rtp.ChannelVideo, raw, ""))
+		}
+	}
+}
+
+// forReplay is the case as written into a violation file.
+func (c *caseSpec) forReplay() *caseSpec {
+	if c.FU == nil {
+		return c
+	}
+	cc := *c
+	cc.Hostile = nil
+	return &cc
+}
 
 func (c *caseSpec) codec() esgen.Codec {
 	if c.Codec == "H265" {
@@ -374,12 +407,16 @@ func (r *rig) flvSnapshot() []string {
 
 func (r *rig) flvHas(tag []byte) bool {
 	for _, g := range r.flvRec.Got() {
-		if t, ok := g.(*flv.Tag); ok && bytes.Contains(t.Data, tag) {
+		if t, ok := g.(*flv.Tag); ok && len(t.Data) <= probeTagMax && bytes.Contains(t.Data, tag) {
 			return true
 		}
 	}
 	return false
 }
+
+// probeTagMax: an FLV tag made from a probe unit is a few hundred bytes; larger
+// tags (a hostile unit of megabytes) are not searched for the probe's marks.
+const probeTagMax = 64 << 10
 
 // flvOrder returns the positions of the tags holding each probe tag (-1 when
 // missing).
@@ -389,7 +426,7 @@ func (r *rig) flvPositions(tags [][]byte) []int {
 	for i, tg := range tags {
 		pos[i] = -1
 		for j, g := range got {
-			if t, ok := g.(*flv.Tag); ok && bytes.Contains(t.Data, tg) {
+			if t, ok := g.(*flv.Tag); ok && len(t.Data) <= probeTagMax && bytes.Contains(t.Data, tg) {
 				pos[i] = j
 				break
 			}
@@ -405,7 +442,7 @@ func (r *rig) flvPositions(tags [][]byte) []int {
 // therefore contiguous in the result, and a byte pattern inside one elementary
 // stream unit can be searched for without a full demultiplexer.
 func tsPayload(b []byte, pid uint16) []byte {
-	var out []byte
+	out := make([]byte, 0, len(b)/188*184)
 	for ; len(b) >= 188; b = b[188:] {
 		if b[0] != 0x47 {
 			continue
@@ -442,27 +479,42 @@ func hlsOf(s *media.Stream) media.Hlsable {
 
 // hlsHas reports whether any segment the playlist still serves holds tag in any
 // elementary stream.
-func (r *rig) hlsHas(tag []byte) bool {
+func (r *rig) hlsHas(tag []byte) bool { return r.hlsHasAny([][]byte{tag}, nil) }
+
+// hlsHasAny reads every served segment once and reports whether one of the tags
+// lies in one of its elementary streams. scanned (optional) remembers the
+// segments already searched in vain for this tag set (sequence number → size),
+// so that a polling caller does not read megabytes again and again.
+func (r *rig) hlsHasAny(tags [][]byte, scanned map[int]int) bool {
 	h := hlsOf(r.s)
 	if h == nil {
 		return false
 	}
 	for seq := 1; seq <= 64; seq++ {
-		rd, _, err := h.Segment(seq)
+		rd, size, err := h.Segment(seq)
 		if err != nil || rd == nil {
+			continue
+		}
+		if scanned != nil && scanned[seq] == size+1 {
 			continue
 		}
 		b, err := io.ReadAll(rd)
 		if err != nil {
 			continue
 		}
+		if scanned != nil {
+			scanned[seq] = size + 1
+		}
 		pids := map[uint16]bool{}
 		for o := 0; o+188 <= len(b); o += 188 {
 			pids[uint16(b[o+1]&0x1f)<<8|uint16(b[o+2])] = true
 		}
 		for pid := range pids {
-			if bytes.Contains(tsPayload(b, pid), tag) {
-				return true
+			es := tsPayload(b, pid)
+			for _, tag := range tags {
+				if bytes.Contains(es, tag) {
+					return true
+				}
 			}
 		}
 	}
@@ -606,12 +658,16 @@ func runCase(c *caseSpec, inject bool) *result {
 	if res.Escaped != nil {
 		return res
 	}
-	hb := bound
+	wb := bound
+	if c.BoundScale > 1 {
+		wb = time.Duration(c.BoundScale) * bound
+	}
+	hb := wb
 	if c.HLSWaitMs > 0 {
 		hb = time.Duration(c.HLSWaitMs) * time.Millisecond
 	}
-	res.RTPMiss, res.FLVMiss, res.HLSMiss = continuation(a, pa, res.HasFLV, res.HasHLS, hb)
-	r2, f2, h2 := continuation(b, pb, res.HasFLV, hlsStream, bound)
+	res.RTPMiss, res.FLVMiss, res.HLSMiss = continuation(a, pa, res.HasFLV, res.HasHLS, wb, hb)
+	r2, f2, h2 := continuation(b, pb, res.HasFLV, hlsStream, wb, wb)
 	if r2+f2+h2 != "" {
 		res.TwinMiss = strings.TrimSpace(r2 + " " + f2 + " " + h2)
 	}
@@ -636,7 +692,7 @@ func runCase(c *caseSpec, inject bool) *result {
 
 // continuation waits (bounded) for the probe to come out of r and says what is
 // missing.
-func continuation(r *rig, probe []probeAU, hasFLV, hasHLS bool, hlsBound time.Duration) (rtpMiss, flvMiss, hlsMiss string) {
+func continuation(r *rig, probe []probeAU, hasFLV, hasHLS bool, bound, hlsBound time.Duration) (rtpMiss, flvMiss, hlsMiss string) {
 	var want []*rtp.Packet
 	for _, au := range probe {
 		want = append(want, au.pkts...)
@@ -709,14 +765,19 @@ func continuation(r *rig, probe []probeAU, hasFLV, hasHLS bool, hlsBound time.Du
 		for _, au := range probe {
 			frag = frag || au.fragmented
 		}
-		ok := mediah.WaitFor(hlsBound, func() bool {
-			for _, au := range probe {
-				if (au.fragmented || !frag) && r.hlsHas(au.vtag) {
-					return true
-				}
+		var look [][]byte
+		for _, au := range probe {
+			if au.fragmented || !frag {
+				look = append(look, au.vtag)
 			}
-			return false
-		})
+		}
+		ok := false
+		scanned := map[int]int{}
+		for dl := time.Now().Add(hlsBound); ; time.Sleep(time.Millisecond) {
+			if ok = r.hlsHasAny(look, scanned); ok || time.Now().After(dl) {
+				break
+			}
+		}
 		var must []byte
 		if frag {
 			must = []byte{1}
@@ -736,15 +797,16 @@ func continuation(r *rig, probe []probeAU, hasFLV, hasHLS bool, hlsBound time.Du
 // for any broken part of the oracle, and returns the injected run's result.
 func judge(t evid.TB, name string, c *caseSpec) *result {
 	t.Helper()
+	c.materialize()
 	res := runCase(c, true)
 	if f := res.failure(); f != "" {
-		evid.Violation(t, name+"/"+f, map[string]any{"case": c, "result": res}, "%s (class %s): %s", f, c.Class, describe(res))
+		evid.Violation(t, name+"/"+f, map[string]any{"case": c.forReplay(), "result": res}, "%s (class %s): %s", f, c.Class, describe(res))
 	}
 	ctl := runCase(c, false)
 	if f := ctl.failure(); f != "" {
 		// the valid stream alone does not satisfy the probe: the harness left the
 		// domain the converters handle, not a C07 matter — fail loudly as a harness problem
-		evid.Violation(t, name+"/control-run-failed", map[string]any{"case": c, "result": ctl}, "control run (no hostile packet) failed: %s: %s", f, describe(ctl))
+		evid.Violation(t, name+"/control-run-failed", map[string]any{"case": c.forReplay(), "result": ctl}, "control run (no hostile packet) failed: %s: %s", f, describe(ctl))
 	}
 	if fmt.Sprint(res.TwinRTP) != fmt.Sprint(ctl.TwinRTP) {
 		evid.Violation(t, name+"/twin-rtp-differs", map[string]any{"case": c, "with": res.TwinRTP, "without": ctl.TwinRTP}, "the twin stream's RTP consumer received %v with the injection into the other stream and %v without", res.TwinRTP, ctl.TwinRTP)
